@@ -99,8 +99,8 @@ Proof.
 Qed.
 
 (* stabilise from inside a node function or a handler: an immediate panic, the state untouched *)
-Lemma nested_stabilise_effect arg s :
-  st_status s <> NotStabilising -> run_effect arg EStabilise s = (Panic PNestedStabilise, s).
+Lemma nested_stabilise_effect fuel arg s :
+  st_status s <> NotStabilising -> run_effect fuel arg EStabilise s = (Panic PNestedStabilise, s).
 Proof. intros H. unfold run_effect, bindM, gets. cbv beta iota. destruct (st_status s); done. Qed.
 
 (* closing a cycle: when the walk of adjust_heights reaches the node the new edge starts from, it
